@@ -43,12 +43,23 @@ var memoPrelude = []string{
 	`fneed = func(x) {if g == 0 {error("no")}; x + g}`, "fcatchlower = func(x) {r = catch(fneed(x)); if r.err {-1} else {r.value}}",
 	"fwraplower = func(x) {flower(x)}", "finv = func(x) {1 / x}", "hset = func(k) {h = func(x) {x + k}}",
 	"mklower = func(v) {func(y) {y + v}}", "mkupper = func(V) {func(y) {y + V}}", "mkfunc = func(c) {func(y) {c(y)}}",
+	// other ways of performing the same redefinitions / mutations (chosen by the instantiation variant)
+	"hset2 = func(k) {old = h; h = func(x) {x + k}; old(0)}", "hset3 = func(k) {h(0); t = func() {h = func(x) {x + k}}; t()}",
+	"gflip = func() {g = 1 - g}", "gflip2 = func() {t = g; g = 1 - t; t}", "cset = func(v) {del(G); G = v}",
 }
 
-func instantiateMemo(ops []memoOp) []string {
+// instantiateMemo turns a model history into REPL inputs. variant selects, per operation, one of the equivalent
+// source forms of a redefinition or mutation (variant 0 = the plain forms).
+func instantiateMemo(ops []memoOp, variant int) []string {
 	in := append([]string{}, memoPrelude...)
 	hver, cst := 1, 10
-	for _, op := range ops {
+	for oi, op := range ops {
+		pickv := func(forms ...string) string {
+			if variant <= 2 && len(forms) >= 3 {
+				return forms[(variant+oi)%3] // variants 0..2 together put each of the first three forms at every position
+			}
+			return forms[(variant+oi)%len(forms)]
+		}
 		switch op.Op {
 		case "call":
 			if op.Kind == "inv" {
@@ -64,16 +75,23 @@ func instantiateMemo(ops []memoOp) []string {
 				in = append(in, fmt.Sprintf("println(mk%s(%d)(%d))", op.Cap, op.V, op.A))
 			}
 		case "mutate":
-			in = append(in, "g = 1 - g")
+			in = append(in, pickv("g = 1 - g", "gflip()", "g := 1 - g", "gflip2()", "g++; g = g % 2"))
 		case "redefh":
 			hver = 3 - hver
-			in = append(in, fmt.Sprintf("h = func(x) {x + %d}", hver))
+			in = append(in, fmt.Sprintf(pickv("h = func(x) {x + %d}", "h := func(x) {x + %d}", "del(h); h = func(x) {x + %d}", "h = (x => x + %d)", "h = func(x) {x + %d}"), hver))
 		case "redefhinside":
 			hver = 3 - hver
-			in = append(in, fmt.Sprintf("hset(%d)", hver))
+			in = append(in, fmt.Sprintf(pickv("hset(%d)", "hset2(%d)", "hset3(%d)", "hset2(%d)", "hset3(%d)"), hver))
 		case "redefconst":
 			cst = 30 - cst
-			in = append(in, "del(G)", fmt.Sprintf("G = %d", cst))
+			switch pickv("a", "b", "c") {
+			case "b":
+				in = append(in, fmt.Sprintf("cset(%d)", cst))
+			case "c":
+				in = append(in, "del(G)", fmt.Sprintf("G := %d", cst))
+			default:
+				in = append(in, "del(G)", fmt.Sprintf("G = %d", cst))
+			}
 		}
 	}
 	return in
@@ -136,7 +154,7 @@ func checkC04(c *Ctx) {
 	var ecs []equivCase
 	seen := map[string]bool{}
 	n := 0
-	stride := c.Pick(2, 4)
+	stride := c.Pick(3, 4)
 	err = ReadLines(r.Emitted, func(line []byte) error {
 		var g struct {
 			H []memoOp `json:"h"`
@@ -148,18 +166,24 @@ func checkC04(c *Ctx) {
 		if (n+int(c.Seed))%stride != 0 {
 			return nil
 		}
-		in := instantiateMemo(g.H)
-		key := strings.Join(in, "\n")
-		if seen[key] {
-			return nil
+		variants := []int{0, 1, 2}
+		if c.Thorough() {
+			variants = []int{0, 1, 2, 3, 4}
 		}
-		seen[key] = true
-		a, b := runMemoPair(in)
-		ecs = append(ecs, equivCase{ID: len(cases), A: a, B: b})
-		cases = append(cases, in)
-		c.Case(key, true)
-		if len(cases)%2000 == 1 {
-			c.Sample(map[string]any{"ops": g.H, "inputs": in[len(memoPrelude):]})
+		for _, variant := range variants {
+			in := instantiateMemo(g.H, variant)
+			key := strings.Join(in, "\n")
+			if seen[key] {
+				continue
+			}
+			seen[key] = true
+			a, b := runMemoPair(in)
+			ecs = append(ecs, equivCase{ID: len(cases), A: a, B: b})
+			cases = append(cases, in)
+			c.Case(key, true)
+			if len(cases)%2000 == 1 {
+				c.Sample(map[string]any{"ops": g.H, "variant": variant, "inputs": in[len(memoPrelude):]})
+			}
 		}
 		return nil
 	})
